@@ -102,3 +102,247 @@ Print Assumptions C18_bisect_lane_independent.
 Print Assumptions C18_chandrupatla_correct.
 Print Assumptions C18_chandrupatla_terminated_near_root.
 Print Assumptions C18_chandrupatla_lane_independent.
+
+(* ====================================================================================================== *)
+(* Second tie to the source: Gen_rootfind.v is regenerated from the AST of copulas/optimize/__init__.py   *)
+(* on every run (tools/vf/rootgen.py: statement-by-statement symbolic execution of `bisect` and           *)
+(* `chandrupatla` over the arithmetic record).  The bridges below prove every generated definition equal  *)
+(* to the hand-written model FOR EVERY ARITHMETIC INSTANCE (hence for RA, which the theorems are about,   *)
+(* and for the PrimFloat instance FA, which the correspondence executes); the theorems above transfer.    *)
+(* ====================================================================================================== *)
+From Coq Require Import Bool.
+From CopRun Require Import Gen_rootfind.
+
+Section C18_bridges.
+Variable T : Type.
+Variable A : arith T.
+
+(* ---------- bisect ---------- *)
+Lemma C18_bridge_bisect_defaults :
+  gen_bisect_default_maxiter = 50%nat /\ gen_bisect_default_tol = tol1em8.
+Proof. split; reflexivity. Qed.
+
+Lemma C18_bridge_bisect_init (l : blane T) : gen_binit A l = l.
+Proof. destruct l; reflexivity. Qed.
+
+Lemma C18_bridge_bisect_precond (ls : list (blane T)) : gen_bprecond A ls = bprecond A ls.
+Proof. reflexivity. Qed.
+
+Lemma C18_bridge_bisect_guess (l : blane T) : gen_bguess A l = bguess A l.
+Proof. reflexivity. Qed.
+
+Lemma C18_bridge_bisect_step (l : blane T) : gen_bstep A l = bstep A l.
+Proof. reflexivity. Qed.
+
+Lemma C18_bridge_bisect_stop (tol : T) (ls : list (blane T)) : gen_bstop A tol ls = bstop A tol ls.
+Proof. reflexivity. Qed.
+
+Lemma C18_bridge_bisect_result (l : blane T) : gen_bresult A l = bresult A l.
+Proof. reflexivity. Qed.
+
+Lemma C18_bridge_bisect_loop (fuel : nat) : forall (tol : T) (ls : list (blane T)) (k : nat),
+  gen_bisect_loop A fuel tol ls k = bisect_loop A fuel tol ls k.
+Proof.
+  induction fuel as [|n IH]; intros tol ls k; [reflexivity|].
+  cbn [gen_bisect_loop bisect_loop].
+  rewrite (map_ext _ _ C18_bridge_bisect_step ls), C18_bridge_bisect_stop.
+  destruct (bstop A tol (map (bstep A) ls)); [reflexivity|apply IH].
+Qed.
+
+Lemma C18_bridge_bisect_lanes (maxiter : nat) (tol : T) (ls : list (blane T)) :
+  gen_bisect_lanes A maxiter tol ls = bisect_lanes A maxiter tol ls.
+Proof.
+  unfold gen_bisect_lanes, bisect_lanes.
+  rewrite C18_bridge_bisect_precond, (map_ext _ _ C18_bridge_bisect_init ls), map_id, C18_bridge_bisect_loop.
+  reflexivity.
+Qed.
+
+Lemma C18_bridge_bisect_full_fun maxiter tol fs xmin xmax :
+  gen_bisect_full_fun A maxiter tol fs xmin xmax = bisect_full_fun A maxiter tol fs xmin xmax.
+Proof.
+  unfold gen_bisect_full_fun, bisect_full_fun.
+  destruct (bzip fs xmin xmax); [apply C18_bridge_bisect_lanes|reflexivity].
+Qed.
+
+Lemma C18_bridge_bisect_fun maxiter tol fs xmin xmax :
+  gen_bisect_fun A maxiter tol fs xmin xmax = bisect_fun A maxiter tol fs xmin xmax.
+Proof.
+  unfold gen_bisect_fun, bisect_fun. rewrite C18_bridge_bisect_full_fun.
+  destruct (bisect_full_fun A maxiter tol fs xmin xmax); [|reflexivity].
+  now rewrite (map_ext _ _ C18_bridge_bisect_result).
+Qed.
+
+(* ---------- chandrupatla ---------- *)
+Lemma C18_bridge_chand_defaults : gen_chand_default_maxiter = 50%nat.
+Proof. reflexivity. Qed.
+
+Lemma C18_bridge_chand_init (l : blane T) : gen_cinit A l = cinit A l.
+Proof. reflexivity. Qed.
+
+Lemma C18_bridge_chand_precond (ls : list (cstate T)) : gen_cprecond A ls = cprecond A ls.
+Proof. reflexivity. Qed.
+
+Lemma C18_bridge_chand_phase1 (s : cstate T) : gen_cphase1 A s = cphase1 A s.
+Proof. reflexivity. Qed.
+
+Lemma C18_bridge_chand_all_terminate (ms : list (cmid T)) : gen_call_term A ms = call_term ms.
+Proof. reflexivity. Qed.
+
+Lemma C18_bridge_chand_phase2_array (m : cmid T) : gen_cphase2_array A m = cphase2 A m.
+Proof. reflexivity. Qed.
+
+Lemma C18_bridge_chand_phase2_scalar (m : cmid T) : gen_cphase2_scalar A m = cphase2 A m.
+Proof. reflexivity. Qed.
+
+Lemma C18_bridge_chand_result (m : cmid T) : gen_cresult A m = mxm m.
+Proof. reflexivity. Qed.
+
+Lemma C18_bridge_chand_loop_array (fuel : nat) : forall (ls : list (cstate T)) (prev : list (cmid T)) (k : nat),
+  gen_chand_loop_array A fuel ls prev k = chand_loop A fuel ls prev k.
+Proof.
+  induction fuel as [|n IH]; intros ls prev k; [reflexivity|].
+  cbn [gen_chand_loop_array chand_loop].
+  rewrite (map_ext _ _ C18_bridge_chand_phase1 ls), C18_bridge_chand_all_terminate.
+  destruct (call_term (map (cphase1 A) ls)); [reflexivity|].
+  rewrite (map_ext _ _ C18_bridge_chand_phase2_array). apply IH.
+Qed.
+
+Lemma C18_bridge_chand_loop_scalar (fuel : nat) : forall (ls : list (cstate T)) (prev : list (cmid T)) (k : nat),
+  gen_chand_loop_scalar A fuel ls prev k = chand_loop A fuel ls prev k.
+Proof.
+  induction fuel as [|n IH]; intros ls prev k; [reflexivity|].
+  cbn [gen_chand_loop_scalar chand_loop].
+  rewrite (map_ext _ _ C18_bridge_chand_phase1 ls), C18_bridge_chand_all_terminate.
+  destruct (call_term (map (cphase1 A) ls)); [reflexivity|].
+  rewrite (map_ext _ _ C18_bridge_chand_phase2_scalar). apply IH.
+Qed.
+
+Lemma C18_bridge_chand_lanes_array maxiter (ls : list (cstate T)) :
+  gen_chand_lanes_array A maxiter ls = chand_lanes A maxiter ls.
+Proof.
+  unfold gen_chand_lanes_array, chand_lanes. rewrite C18_bridge_chand_precond.
+  destruct (cprecond A ls), maxiter; try reflexivity. now rewrite C18_bridge_chand_loop_array.
+Qed.
+
+Lemma C18_bridge_chand_lanes_scalar maxiter (ls : list (cstate T)) :
+  gen_chand_lanes_scalar A maxiter ls = chand_lanes A maxiter ls.
+Proof.
+  unfold gen_chand_lanes_scalar, chand_lanes. rewrite C18_bridge_chand_precond.
+  destruct (cprecond A ls), maxiter; try reflexivity. now rewrite C18_bridge_chand_loop_scalar.
+Qed.
+
+Lemma C18_bridge_chandrupatla_full_fun maxiter fs xmin xmax :
+  gen_chandrupatla_full_fun A maxiter fs xmin xmax = chandrupatla_full_fun A maxiter fs xmin xmax.
+Proof.
+  unfold gen_chandrupatla_full_fun, chandrupatla_full_fun, czip.
+  destruct (bzip fs xmin xmax) as [ls|]; [|reflexivity].
+  now rewrite (map_ext _ _ C18_bridge_chand_init), C18_bridge_chand_lanes_array.
+Qed.
+
+Lemma C18_bridge_chandrupatla_fun maxiter fs xmin xmax :
+  gen_chandrupatla_fun A maxiter fs xmin xmax = chandrupatla_fun A maxiter fs xmin xmax.
+Proof.
+  unfold gen_chandrupatla_fun, chandrupatla_fun. rewrite C18_bridge_chandrupatla_full_fun.
+  destruct (chandrupatla_full_fun A maxiter fs xmin xmax); [|reflexivity].
+  now rewrite (map_ext _ _ C18_bridge_chand_result).
+Qed.
+
+(* the scalar call (scalar branch of the loop body) is the one-element batch of the model *)
+Lemma C18_bridge_chandrupatla_scalar maxiter (f : T -> T) lo hi :
+  gen_chandrupatla_scalar A maxiter f lo hi = chandrupatla_fun A maxiter [f] [lo] [hi].
+Proof.
+  unfold gen_chandrupatla_scalar, chandrupatla_fun, chandrupatla_full_fun, czip.
+  cbn [bzip map]. rewrite C18_bridge_chand_init, C18_bridge_chand_lanes_scalar.
+  destruct (chand_lanes A maxiter [cinit A (mk_blane f lo hi)]); [|reflexivity].
+  now rewrite (map_ext _ _ C18_bridge_chand_result).
+Qed.
+
+(* the loop keeps the batch size *)
+Lemma C18_chand_loop_length (fuel : nat) : forall (ls : list (cstate T)) (prev : list (cmid T)) (k : nat),
+  fuel <> O \/ length prev = length ls ->
+  length (fst (chand_loop A fuel ls prev k)) = length ls.
+Proof.
+  induction fuel as [|n IH]; intros ls prev k Hp.
+  - destruct Hp as [Hp|Hp]; [congruence|exact Hp].
+  - cbn [chand_loop]. destruct (call_term (map (cphase1 A) ls)).
+    + cbn [fst]. now rewrite map_length.
+    + rewrite IH; [now rewrite !map_length|right; now rewrite !map_length].
+Qed.
+
+End C18_bridges.
+
+(* ---------- the theorems, restated on the generated definitions ---------- *)
+Theorem C18_gen_bisect_correct maxiter tol fs xmin xmax r i f lo hi :
+  gen_bisect_fun RA maxiter tol fs xmin xmax = Some r ->
+  nth_error fs i = Some f -> nth_error xmin i = Some lo -> nth_error xmax i = Some hi ->
+  lo <= hi ->
+  exists x, nth_error r i = Some x /\ lo <= x <= hi /\
+    ((forall y, lo <= y <= hi -> continuity_pt f y) ->
+     exists z, lo <= z <= hi /\ f z = 0 /\
+               Rabs (x - z) <= Rmax tol ((hi - lo) / 2 ^ maxiter) / 2).
+Proof. rewrite C18_bridge_bisect_fun. apply C18_bisect_correct. Qed.
+
+Theorem C18_gen_bisect_rejects maxiter tol fs xmin xmax i f lo hi :
+  nth_error fs i = Some f -> nth_error xmin i = Some lo -> nth_error xmax i = Some hi ->
+  f lo > 0 \/ f hi < 0 ->
+  gen_bisect_fun RA maxiter tol fs xmin xmax = None.
+Proof. rewrite C18_bridge_bisect_fun. apply C18_bisect_rejects. Qed.
+
+Theorem C18_gen_bisect_lane_independent maxiter tol fs xmin xmax ls' k i f lo hi :
+  gen_bisect_full_fun RA maxiter tol fs xmin xmax = Some (ls', k) ->
+  nth_error fs i = Some f -> nth_error xmin i = Some lo -> nth_error xmax i = Some hi ->
+  let l := mk_blane f lo hi in
+  nth_error ls' i = Some (blane_iter RA k l) /\
+  exists k1, gen_bisect_full_fun RA maxiter tol [f] [lo] [hi] = Some ([blane_iter RA k1 l], k1) /\ (k1 <= k)%nat.
+Proof. rewrite !C18_bridge_bisect_full_fun. apply C18_bisect_lane_independent. Qed.
+
+Theorem C18_gen_chandrupatla_correct maxiter fs xmin xmax r i f lo hi :
+  gen_chandrupatla_fun RA maxiter fs xmin xmax = Some r ->
+  nth_error fs i = Some f -> nth_error xmin i = Some lo -> nth_error xmax i = Some hi ->
+  exists x a b, nth_error r i = Some x /\
+    Rmin lo hi <= x <= Rmax lo hi /\ (x = a \/ x = b) /\
+    Rmin lo hi <= a <= Rmax lo hi /\ Rmin lo hi <= b <= Rmax lo hi /\ f a * f b <= 0.
+Proof. rewrite C18_bridge_chandrupatla_fun. apply C18_chandrupatla_correct. Qed.
+
+Theorem C18_gen_chandrupatla_rejects maxiter fs xmin xmax i f lo hi :
+  nth_error fs i = Some f -> nth_error xmin i = Some lo -> nth_error xmax i = Some hi ->
+  f lo * f hi > 0 ->
+  gen_chandrupatla_fun RA maxiter fs xmin xmax = None.
+Proof. rewrite C18_bridge_chandrupatla_fun. apply C18_chandrupatla_rejects. Qed.
+
+(* the scalar call (its own branch of the source) returns a bracketed value as well *)
+Theorem C18_gen_chandrupatla_scalar_correct maxiter (f : R -> R) lo hi r :
+  gen_chandrupatla_scalar RA maxiter f lo hi = Some r ->
+  exists x a b, r = [x] /\
+    Rmin lo hi <= x <= Rmax lo hi /\ (x = a \/ x = b) /\
+    Rmin lo hi <= a <= Rmax lo hi /\ Rmin lo hi <= b <= Rmax lo hi /\ f a * f b <= 0.
+Proof.
+  rewrite C18_bridge_chandrupatla_scalar. intros H.
+  destruct (C18_chandrupatla_correct maxiter [f] [lo] [hi] r 0 f lo hi H eq_refl eq_refl eq_refl)
+    as (x & a & b & Hx & Hr).
+  exists x, a, b. split; [|exact Hr].
+  unfold chandrupatla_fun, chandrupatla_full_fun, czip in H. cbn [bzip map] in H.
+  unfold chand_lanes in H.
+  destruct (cprecond RA [cinit RA (mk_blane f lo hi)]); [|discriminate].
+  destruct maxiter as [|n]; [discriminate|].
+  remember (chand_loop RA (S n) [cinit RA (mk_blane f lo hi)] [] 0) as res eqn:E.
+  injection H as H.
+  assert (L : length r = 1%nat).
+  { rewrite <- H, map_length, E. apply C18_chand_loop_length. left; discriminate. }
+  destruct r as [|y [|? ?]]; try discriminate L.
+  cbn in Hx. now injection Hx as ->.
+Qed.
+
+(* what the bit-exact correspondence executes (FA) is the generated code as well *)
+Corollary C18_bridge_float_instance :
+  (forall maxiter tol fs xmin xmax, gen_bisect_fun FA maxiter tol fs xmin xmax = bisect_fun FA maxiter tol fs xmin xmax) /\
+  (forall maxiter fs xmin xmax, gen_chandrupatla_fun FA maxiter fs xmin xmax = chandrupatla_fun FA maxiter fs xmin xmax) /\
+  (forall maxiter f lo hi, gen_chandrupatla_scalar FA maxiter f lo hi = chandrupatla_fun FA maxiter [f] [lo] [hi]).
+Proof.
+  repeat split; intros;
+    [apply C18_bridge_bisect_fun|apply C18_bridge_chandrupatla_fun|apply C18_bridge_chandrupatla_scalar].
+Qed.
+
+Print Assumptions C18_gen_bisect_correct.
+Print Assumptions C18_gen_chandrupatla_correct.
+Print Assumptions C18_bridge_float_instance.
